@@ -14,7 +14,7 @@ def run(chk, binary):
     n = 1500 if thorough else 220
     scs = []
     for _ in range(n):
-        files = D.gen_files(rng, rng.randint(1, 5))
+        files = D.gen_files(rng, rng.randint(1, 5), bad=0.03)      # now and then a file that is not UTF-8: the run must refuse it
         r = rng.random()
         if r < 0.25:
             cmds = D.gen_cmds(rng, edit_only=True)
@@ -71,6 +71,20 @@ def run(chk, binary):
             if d:
                 chk.violation(f"correspondence:driver model ({what})", {"argv": o_["argv"], "files": [(a, b.decode(errors='replace')) for a, b in s_["files"]],
                               "diff": d, "rc": o_["rc"], "stderr": o_["err"].decode(errors="replace")[-300:]}, concrete=o_["rc"] not in (0, 1))
+        badfiles = [nm for nm, data in sc["files"] if nm not in sc["unnamed"] and data == D.BAD_UTF8]
+        if badfiles:
+            dist["with a file that is not UTF-8"] = dist.get("with a file that is not UTF-8", 0) + 1
+            changed = [nm for nm, data in sc["files"] if ob["final"].get(nm) != data]
+            names_ = [nm for nm, _ in sc["files"]]
+            if "--serial" in sc["opts"] and ob["rc"] != 0 and all(names_.index(nm) < min(names_.index(b_) for b_ in badfiles) for nm in changed):
+                changed = []        # --serial works file by file: what it rewrote before the faulty file is C06's known finding
+            elif "--serial" in sc["opts"] and ob["rc"] != 0:
+                first_bad = min(names_.index(b_) for b_ in badfiles)
+                early = {nm for nm in names_[:first_bad]} | {D.py_backup(nm) for nm in names_[:first_bad]}
+                changed = [nm for nm in changed if nm not in early]
+            if ob["rc"] == 0 or changed:
+                chk.violation("spec:a file that is not UTF-8 was accepted or files were rewritten", {"argv": ob["argv"], "rc": ob["rc"], "not_utf8": badfiles, "changed": changed,
+                              "after": {k_: repr(v_)[:120] for k_, v_ in ob["final"].items()}})
         if ob["rc"] != 0 or tob["rc"] != 0:
             continue
         # ---- direct oracles on the implementation ----
